@@ -1,0 +1,20 @@
+//! Verification hook (cargo feature `verif`): entry counts of every map of this index.
+//! The exhaustive destructuring makes a new field break this build until it is accounted for.
+use super::LuaPropertyIndex;
+
+impl LuaPropertyIndex {
+    pub fn verif_report(&self) -> Vec<(&'static str, usize)> {
+        let Self {
+            properties,
+            property_owners_map,
+            id_count: _,
+            in_filed_owner,
+        } = self;
+        vec![
+            ("property.properties", properties.len()),
+            ("property.property_owners_map", property_owners_map.len()),
+            ("property.in_filed_owner", in_filed_owner.len()),
+            ("property.in_filed_owner.items", in_filed_owner.values().map(|v| v.len()).sum()),
+        ]
+    }
+}
